@@ -135,11 +135,17 @@ def fg_id_numpy(  # noqa: PLR0913
     next_fg_id = 0
 
     for index, current_p_id in enumerate(p_id):
-        # Already assigned a fg_id to this p_id via einstandspartner / parent
+        # If a fg_id was already assigned to this p_id via einstandspartner / parent,
+        # keep it, but still pass it on to the person's own einstandspartner and
+        # children. Skipping the person here would make the result depend on the order
+        # of rows (e.g. the child of only one partner would be left out whenever the
+        # other partner comes first).
         if current_p_id in p_id_to_fg_id:
-            continue
-
-        p_id_to_fg_id[current_p_id] = next_fg_id
+            current_fg_id = p_id_to_fg_id[current_p_id]
+        else:
+            current_fg_id = next_fg_id
+            p_id_to_fg_id[current_p_id] = current_fg_id
+            next_fg_id += 1
 
         current_hh_id = hh_id[index]
         current_p_id_einstandspartner = p_id_einstandspartner[index]
@@ -147,7 +153,7 @@ def fg_id_numpy(  # noqa: PLR0913
 
         # Assign fg to einstandspartner
         if current_p_id_einstandspartner >= 0:
-            p_id_to_fg_id[current_p_id_einstandspartner] = next_fg_id
+            p_id_to_fg_id[current_p_id_einstandspartner] = current_fg_id
 
         # Assign fg to children
         for current_p_id_child in current_p_id_children:
@@ -155,6 +161,7 @@ def fg_id_numpy(  # noqa: PLR0913
             child_hh_id = hh_id[child_index]
             child_alter = alter[child_index]
             child_p_id_children = p_id_to_p_ids_children.get(current_p_id_child, [])
+            child_p_id_einstandspartner = p_id_einstandspartner[child_index]
 
             if (
                 child_hh_id == current_hh_id
@@ -164,10 +171,11 @@ def fg_id_numpy(  # noqa: PLR0913
                 # https://github.com/iza-institute-of-labor-economics/gettsim/issues/668
                 and child_alter < 25
                 and len(child_p_id_children) == 0
+                # A child with an own einstandspartner forms a separate
+                # Familiengemeinschaft together with that partner.
+                and child_p_id_einstandspartner < 0
             ):
-                p_id_to_fg_id[current_p_id_child] = next_fg_id
-
-        next_fg_id += 1
+                p_id_to_fg_id[current_p_id_child] = current_fg_id
 
     # Compute result vector
     result = [p_id_to_fg_id[current_p_id] for current_p_id in p_id]
